@@ -319,7 +319,7 @@ fn judge(run: &Run, env: &Env, c: &Case) -> CaseResult {
         Err(f) => {
             // the direct signature failing is C03's subject; here it only means there is nothing to compare
             if std::env::var("VERIF_DUMP").is_ok() {
-                eprintln!("direct sign/read failed: {} {}", f.signature, f.what);
+                eprintln!("direct sign/read failed: {} {}\ncase: {}", f.signature, f.what, serde_json::to_string(c).unwrap_or_default());
             }
             run.count(&format!("skipped_direct_{}", f.signature));
             return Ok(());
@@ -415,11 +415,18 @@ fn judge(run: &Run, env: &Env, c: &Case) -> CaseResult {
         }
     };
 
+    compare_readers(run, env, &gd, hops, &ra, &rb)
+}
+
+/// Compare the read-back of the directly signed builder (`ra`) with the read-back of the builder that went
+/// through the archive (`rb`).
+fn compare_readers(run: &Run, env: &Env, gd: &GenDef, hops: u8, ra: &Reader, rb: &Reader) -> CaseResult {
+    let (ra, rb) = (ra, rb);
     // ---- compare ---------------------------------------------------------------------------------------
     // A recognised low-severity difference is remembered and normalised away so that the rest of the
     // comparison still runs; it is reported at the end if nothing else differs.
     let mut minor: Option<Fail> = None;
-    let (va, vb) = (verdict_norm(&ra), verdict_norm(&rb));
+    let (va, vb) = (verdict_norm(ra), verdict_norm(rb));
     if va != vb {
         let list = |v: &Value| -> Vec<String> { v["codes"].as_array().map(|a| a.iter().filter_map(|x| x.as_str().map(String::from)).collect()).unwrap_or_default() };
         let (mut la, lb) = (list(&va), list(&vb));
@@ -457,7 +464,7 @@ fn judge(run: &Run, env: &Env, c: &Case) -> CaseResult {
             ));
         }
     }
-    let (mut ja, mut jb) = (report(&ra), report(&rb));
+    let (mut ja, mut jb) = (report(ra), report(rb));
     if env.selftest == 1 {
         // corrupt the restored report: the check must notice
         if let Some(m) = jb["manifests"].as_object_mut().and_then(|m| m.values_mut().next()) {
@@ -511,12 +518,12 @@ fn judge(run: &Run, env: &Env, c: &Case) -> CaseResult {
                     m.assertions()
                         .iter()
                         // actions carry run-specific hashed URIs: label and attribution only
-                        .map(|a| (a.label().to_string(), if a.label().starts_with("c2pa.actions") { Value::Null } else { a.value().cloned().unwrap_or(Value::Null) }, a.created()))
+                        .map(|a| (a.label().to_string(), if a.label().starts_with("c2pa.actions") || a.label().starts_with("c2pa.hash.") { Value::Null } else { a.value().cloned().unwrap_or(Value::Null) }, a.created()))
                         .collect()
                 })
                 .unwrap_or_default()
         };
-        let (la, lb) = (list(&ra), list(&rb));
+        let (la, lb) = (list(ra), list(rb));
         // multiset equality under JSON equivalence, with or without the created flag
         let multiset_eq = |with_created: bool| -> bool {
             if la.len() != lb.len() {
@@ -548,7 +555,7 @@ fn judge(run: &Run, env: &Env, c: &Case) -> CaseResult {
         }
     }
     if std::env::var("VERIF_DUMP").is_ok() {
-        for (n, r) in [("original", &ra), ("restored", &rb)] {
+        for (n, r) in [("original", ra), ("restored", rb)] {
             if let Some(m) = r.active_manifest() {
                 eprintln!("{n}: {:?}", m.assertions().iter().map(|a| format!("{}#{}{}", a.label(), a.instance(), if a.created() { "(created)" } else { "" })).collect::<Vec<_>>());
             }
@@ -626,7 +633,7 @@ fn judge(run: &Run, env: &Env, c: &Case) -> CaseResult {
         let d: Value = serde_json::from_str(&r.detailed_json()).unwrap_or(Value::Null);
         d["manifests"][r.active_label().unwrap_or("")]["claim"]["alg"].as_str().unwrap_or("").to_string()
     };
-    let (alg_a, alg_b) = (claim_alg(&ra), claim_alg(&rb));
+    let (alg_a, alg_b) = (claim_alg(ra), claim_alg(rb));
     if alg_a != alg_b && minor.is_none() {
         minor = Some(Fail::new(
             "C22:hash-alg-lost-after-restore",
@@ -657,8 +664,8 @@ fn judge(run: &Run, env: &Env, c: &Case) -> CaseResult {
         if x.0 != y.0 || x.1 != y.1 {
             return Err(Fail::new("C22:resource-set-differs", format!("resource {:?} ({}) vs {:?} ({})", x.0, x.1, y.0, y.1)));
         }
-        let ba = fetch(&ra, &x.2);
-        let bb = fetch(&rb, &y.2);
+        let ba = fetch(ra, &x.2);
+        let bb = fetch(rb, &y.2);
         match (ba, bb) {
             (Ok(p), Ok(q)) => {
                 if p != q {
@@ -753,6 +760,109 @@ fn drop_thumb_copy_traces(v: &mut Value) {
     }
 }
 
+// ---- extra stream: write_ingredient_archive -> add_ingredient_from_archive --------------------------------
+
+#[derive(Clone, Debug, Serialize, Deserialize, PartialEq, Eq, Hash)]
+struct ICase {
+    /// 0 unsigned PNG, 1 unsigned WebP, 2 C.jpg, 3 CA.jpg, 4.. harness-signed kinds
+    src: u8,
+    /// false componentOf, true inputTo
+    input_to: bool,
+    title: u8,
+    thumbs: bool,
+    alg: u8,
+    asset: u8,
+}
+
+/// Oracle: adding an ingredient directly from its stream and adding it through an ingredient archive written
+/// by another builder (same JSON, same stream) give the same reported manifest after signing.
+fn judge_ingredient_archive(run: &Run, env: &Env, c: &ICase) -> CaseResult {
+    let src = match c.src % 7 {
+        0 => defgen::IngSource::Unsigned("libpng-test.png".into(), "image/png".into()),
+        1 => defgen::IngSource::Unsigned("test.webp".into(), "image/webp".into()),
+        2 => defgen::IngSource::SignedFixture("C.jpg".into(), "image/jpeg".into()),
+        3 => defgen::IngSource::SignedFixture("CA.jpg".into(), "image/jpeg".into()),
+        k => defgen::IngSource::HarnessSigned(k - 4),
+    };
+    run.count(&format!("ingarchive_src_{}", c.src % 7));
+    let Some((imime, ibytes)) = defgen::ingredient_bytes(&src) else { return Ok(()) };
+    let title = match c.title % 3 {
+        0 => "archived ingredient.png".to_string(),
+        1 => "成分 🎨 é.png".to_string(),
+        _ => "\"quoted\" <tag> & more".to_string(),
+    };
+    let ing_json = json!({ "title": title, "relationship": if c.input_to { "inputTo" } else { "componentOf" }, "label": "verif_ing_1" }).to_string();
+    let case = Case { asset: c.asset, alg: c.alg, hops: 0, route: 0, thumbs: c.thumbs, spec: DefSpec::default() };
+    let mut st = settings(&case);
+    sdk::merge(&mut st, &json!({ "builder": { "generate_c2pa_archive": true } }));
+    let mk = || -> c2pa::Result<Builder> {
+        let mut b = Builder::from_context(sdk::context_with(&st)).with_definition(sdk::simple_definition("ingredient archive host").to_string())?;
+        b.set_intent(c2pa::BuilderIntent::Create(c2pa::DigitalSourceType::Empty));
+        Ok(b)
+    };
+    let ai = c.asset as usize % 3; // png, jpeg, webp
+    let (_, mime, _) = ASSETS[ai];
+    let host = &env.assets[ai];
+
+    // direct
+    let mut y1 = mk().map_err(|e| Fail::new("C22:ingarchive-setup", format!("{e}")))?;
+    if let Err(e) = y1.add_ingredient_from_stream(ing_json.clone(), &imime, &mut Cursor::new(ibytes.clone())) {
+        run.count(&format!("skipped_ingredient_rejected_{}", err_variant(&e)));
+        return Ok(());
+    }
+    let ra = match sign_and_read(&case, &mut y1, mime, host) {
+        Ok(r) => r,
+        Err(f) if f.signature.starts_with("C22:") => return Err(f),
+        Err(f) => {
+            run.count(&format!("skipped_direct_{}", f.signature));
+            return Ok(());
+        }
+    };
+    // through an ingredient archive written by another builder
+    let mut x = mk().map_err(|e| Fail::new("C22:ingarchive-setup", format!("{e}")))?;
+    x.add_ingredient_from_stream(ing_json.clone(), &imime, &mut Cursor::new(ibytes.clone()))
+        .map_err(|e| Fail::new("C22:ingarchive-setup", format!("second add_ingredient_from_stream failed: {e}")))?;
+    let mut ar = Cursor::new(Vec::new());
+    match vh::catch(|| x.write_ingredient_archive("verif_ing_1", &mut ar)) {
+        Err(p) => return Err(Fail::new(format!("C22:write-ingredient-archive-panic:{}", vh::core::panic_site(&p)), p)),
+        Ok(Err(e)) => return Err(Fail::new(format!("C22:write-ingredient-archive-failed:{}", err_variant(&e)), format!("{e}"))),
+        Ok(Ok(())) => {}
+    }
+    let mut y2 = mk().map_err(|e| Fail::new("C22:ingarchive-setup", format!("{e}")))?;
+    match vh::catch(|| y2.add_ingredient_from_archive(&mut Cursor::new(ar.into_inner())).map(|_| ())) {
+        Err(p) => return Err(Fail::new(format!("C22:add-ingredient-from-archive-panic:{}", vh::core::panic_site(&p)), p)),
+        Ok(Err(e)) => {
+            return Err(Fail::new(
+                format!("C22:add-ingredient-from-archive-failed:{}", err_variant(&e)),
+                format!("archive written by write_ingredient_archive is not accepted: {e}"),
+            ))
+        }
+        Ok(Ok(())) => {}
+    }
+    let rb = match sign_and_read(&case, &mut y2, mime, host) {
+        Ok(r) => r,
+        Err(f) if f.signature.starts_with("C22:") => return Err(f),
+        Err(f) => {
+            return Err(Fail::new(
+                format!("C22:ingarchive-{}", f.signature.replace(':', "-failed:")),
+                format!("host with the ingredient added directly signs, with the ingredient added from its archive it does not: {}", f.what),
+            ))
+        }
+    };
+    let gd = defgen::expand_with(&DefSpec::default(), &opts());
+    if matches!(src, defgen::IngSource::SignedFixture(..) | defgen::IngSource::HarnessSigned(_)) || c.thumbs {
+        run.nontrivial(c);
+    }
+    compare_readers(run, env, &gd, 1, &ra, &rb).map_err(|f| {
+        // the two recognised ingredient-thumbnail differences are the same defects on this route
+        if f.signature.starts_with("C22:ingredient-thumbnail-") {
+            Fail::new(f.signature, format!("(ingredient archive route) {}", f.what))
+        } else {
+            Fail::new(f.signature.replace("C22:", "C22:ingarchive:"), f.what)
+        }
+    })
+}
+
 fn main() {
     vh::quiet_panics();
     let run = Run::from_args("C22", "exploration");
@@ -793,6 +903,19 @@ fn main() {
         },
     );
     run.drive_par("archive_roundtrip", n, 8, strat, |c| judge(&run, &env, c));
+
+    // extra stream (enumerated): ingredient archives
+    let mut icases = vec![];
+    for src in 0..7u8 {
+        for thumbs in [false, true] {
+            for input_to in [false, true] {
+                for k in 0..run.scale(1u8, 6u8) {
+                    icases.push(ICase { src, input_to, title: (src + k) % 3, thumbs, alg: (src + 2 * k) % 7, asset: (src + k) % 3 });
+                }
+            }
+        }
+    }
+    run.drive_enum_par("ingredient_archive", icases, 8, |c| judge_ingredient_archive(&run, &env, c));
 
     let rejected = run.hist_get("generator_rejected");
     let evals = run.evals().max(1);
